@@ -28,6 +28,7 @@ DEFAULT = {
     "p_b_in_filter": 0.3,  # the filter also restricts the discrete choice b
     "p_reduction_aux": 0.2,   # an auxiliary function written as jnp.sum(jnp.array([...])), used by utility only
     "p_lower_bound": 0.1,      # a constraint kmin <= c cutting off the LOW end of the consumption grid (ties with excluded points)
+    "p_undefined_outside": 0.12,  # utility is NaN / +inf wherever a (parameter-free) filter or constraint fails: never to be looked at
     "p_near_tie": 0.15,        # large utility level + tiny dyadic premia on the discrete choices: near-ties (relative 1e-5)
     "p_dead_label": 0.0,       # (models without continuous state) the last label of h admits no choice: value -inf, reachable
     "p_state_only_filter": 0.15,  # the filter restricts states only: no restricted choice, every discrete choice unrestricted
@@ -86,6 +87,8 @@ def rand_model(rng: random.Random, over=None):  # noqa: C901, PLR0912, PLR0915
     for _ in range(200):
         m = _rand_model_once(rng, P)
         if m is not None:
+            if rng.random() < P["p_undefined_outside"]:
+                undefined_outside(rng, m)
             return m
     raise RuntimeError("generator could not satisfy the size bound")
 
@@ -304,14 +307,18 @@ def _rand_model_once(rng, P):  # noqa: C901, PLR0912, PLR0915
     if disc_all and near_tie:
         # values around 64 .. 256 whose differences between discrete choices can be as small as 2^-10: still exact in float32
         # (17 significant bits), but any "approximately equal" comparison in the code sees a tie
-        terms.append(const(128))
+        # x64_ties: level 2^23 with premia 1/8 and 1/4 -- exact in float64, below the resolution of float32 (1 at that level);
+        # such models are run with jax_enable_x64 and judged without any tolerance
+        x64t = bool(P.get("x64_ties"))
+        terms.append(const(1 << 23 if x64t else 128))
         if has_a:
-            terms.append(mul(const(rng.choice([F(1, 1024), F(-1, 1024)])), var("a")))
+            terms.append(mul(const(rng.choice([F(1, 8), F(-1, 8)] if x64t else [F(1, 1024), F(-1, 1024)])), var("a")))
             uargs.append("a")
         if has_b:
-            terms.append(mul(const(rng.choice([F(1, 512), F(-1, 512)])), var("b")))
+            terms.append(mul(const(rng.choice([F(1, 4), F(-1, 4)] if x64t else [F(1, 512), F(-1, 512)])), var("b")))
             uargs.append("b")
         feat["near_ties"] = True
+        feat["x64_ties"] = x64t
     if has("p_reduction_aux") and (has_a or has_b):
         # an auxiliary function written as a reduction over a stacked array (jnp.sum(jnp.array([...]))).  It only feeds
         # utility (and can be requested as a target): lcm.simulate applies the transition functions to whole batches
@@ -474,7 +481,25 @@ def _rand_model_once(rng, P):  # noqa: C901, PLR0912, PLR0915
     })
     return {"T": T, "vars": vars_, "funcs": funcs, "params": params,
             "meta": {"feat": feat, "admitted": admitted, "fstates": (["r"] + (["q"] if has_q else [])) if has_r else [],
-                     "inexact": bool(P["inexact"] or log_w)}}
+                     "inexact": bool(P["inexact"] or log_w),
+                     **({"x64": True, "tol": [0, 1]} if feat.get("x64_ties") else {})}}
+
+
+def undefined_outside(rng, m):
+    """Make utility undefined (NaN or +inf, like log or sqrt of a negative number / a division by zero) wherever a filter or
+    constraint of the model fails.  Excluded combinations are never part of a maximisation, so nothing else changes."""
+    u = next(f for f in m["funcs"] if f["kind"] == "utility")
+    conds = [f for f in m["funcs"] if f["kind"] in ("filter", "constraint") and not m["params"].get(f["name"])
+             and all(a in u["args"] or a == "_period" for a in f["args"])]
+    if not conds:
+        return m
+    bad = [0, 0] if rng.random() < 0.6 else [1, 0]
+    for f in conds:
+        u["expr"] = ["ite", f["expr"], u["expr"], ["const", bad]]
+        if "_period" in f["args"] and "_period" not in u["args"]:
+            u["args"].append("_period")
+    m.setdefault("meta", {}).setdefault("feat", {})["undefined_outside"] = True
+    return m
 
 
 def rand_row(rng, n, onehot=False):
